@@ -580,6 +580,67 @@ theorem fill_cert (a : Aligner) (S : Scheme) (hgo : S.gapopen = a.gapopen) (hge 
       rw [← hgo, ← hge] at *
       omega
 
+/-! ### the trace-back of the repaired fill never indexes out of range -/
+
+/-- the loop returns (no Go panic) when no cell of row 0 says `UP` and no cell of column 0 `LEFT` -/
+theorem btLoop_total (fixed : Bool) (gopen gext : Int) (m : Nat → Nat → Int) (tr : Nat → Nat → Dir)
+    (s1 s2 : Seq) (l1 l2 : Nat) (hup : ∀ j, j < l2 → tr 0 j ≠ Dir.up) (hleft : ∀ i, i < l1 → tr i 0 ≠ Dir.left) :
+    ∀ (f pi pj : Nat) (st : BT), pi ≤ l1 → pj ≤ l2 →
+      (btLoop fixed gopen gext m tr s1 s2 f pi pj st).isSome := by
+  intro f
+  induction f with
+  | zero => intro pi pj st _ _; rfl
+  | succ f ih =>
+    intro pi pj st h1 h2
+    simp only [btLoop]
+    split
+    · rfl
+    · rename_i hz
+      cases htr : tr (pi - 1) (pj - 1) with
+      | diag =>
+        simp only [btStep, htr]
+        split
+        · rfl
+        · exact ih _ _ _ (by omega) (by omega)
+      | up =>
+        simp only [btStep, htr]
+        by_cases h0 : pi - 1 = 0
+        · exact absurd (h0 ▸ htr) (hup (pj - 1) (by omega))
+        · simp only [h0, if_false]
+          split
+          · rfl
+          · exact ih _ _ _ (by omega) h2
+      | left =>
+        simp only [btStep, htr]
+        by_cases h0 : pj - 1 = 0
+        · exact absurd (h0 ▸ htr) (hleft (pi - 1) (by omega))
+        · simp only [h0, if_false]
+          split
+          · rfl
+          · exact ih _ _ _ h1 (by omega)
+
+theorem fill_no_up_row0 (a : Aligner) (x1 x2 : List CI) (h1 : 0 < x1.length) (j : Nat) (h2 : j < x2.length) :
+    (fill a true x1 x2).t 0 j ≠ Dir.up := by
+  rw [fill_t a x1 x2 0 j h1 h2]
+  obtain ⟨c, hc⟩ := Q_zero_tail h1
+  obtain ⟨r2, e2, _, _⟩ := Q_head h2 (default : CI)
+  rw [hc, e2, cellR_cons_cons]
+  intro htr
+  have := (cellStep_tr _ _ _ _ _ _ _ _).2.1 htr
+  rw [(cellStep_spec _ _ _ _ _ _ _ _).1] at this
+  simp [cellR, outside, NInf.step, NInf.add] at this
+
+theorem fill_no_left_col0 (a : Aligner) (x1 x2 : List CI) (h2 : 0 < x2.length) (i : Nat) (h1 : i < x1.length) :
+    (fill a true x1 x2).t i 0 ≠ Dir.left := by
+  rw [fill_t a x1 x2 i 0 h1 h2]
+  obtain ⟨c, hc⟩ := Q_zero_tail h2
+  obtain ⟨r1, e1, _, _⟩ := Q_head h1 (default : CI)
+  rw [hc, e1, cellR_cons_cons]
+  intro htr
+  have := (cellStep_tr _ _ _ _ _ _ _ _).2.2 htr
+  rw [(cellStep_spec _ _ _ _ _ _ _ _).2.1] at this
+  simp [cellR_nil_right, outside, NInf.step, NInf.add] at this
+
 /-! ### the reported end cell holds the reported score -/
 
 theorem bestFold_at (i : Nat) : ∀ (l : List Int) (j : Nat) (best : Best),
